@@ -89,6 +89,7 @@ func (t *T) guarded(api, pred, where string, ins []named, f func() error) outcom
 			// a panic of the plain call with distinct, fresh arguments is not an aliasing / history
 			// matter (other properties judge it); it is only counted
 			t.c.Count("baseline_panics_not_judged", 1)
+			t.c.Count("baseline_panic:"+api, 1)
 		} else {
 			t.c.Violate(strings.TrimRight("C09|"+api+"|panic|"+sigPred(pred), "|"), fmt.Sprintf("%s [%s]: panic: %v at %s", where, t.tag, o.pval, o.stack), nil)
 		}
